@@ -37,7 +37,7 @@ def main(argv):
         queuefam.EXTRA_PLANS["C12"] = [others.LIMITS]
         queuefam.EXTRA_PLANS["C03"] = [others.LEASECONC, others.PULLOPS]
         queuefam.EXTRA_PLANS["C04"] = [others.PULLOPS, others.LEASECONC]
-        queuefam.EXTRA_PLANS["C05"] = [others.PULLOPS, others.LONGPOLL, others.RELOAD_SWEEPS]
+        queuefam.EXTRA_PLANS["C05"] = [others.PULLOPS, others.LONGPOLL, others.RELOAD_SWEEPS, others.OPFRONT]
         queuefam.EXTRA_PLANS["C14"] = [others.OPFRONT]
     except ImportError:
         pass
